@@ -36,7 +36,7 @@ INVALID_EXPRS = ['contains("X"', 'amount > ', 'contains("X) and amount > 1', 'la
 
 
 def runs(tier):
-    return 120 if tier == 'quick' else 6000
+    return 120 if tier == 'quick' else 4800
 
 
 # ----------------------------------------------------------------------------- corruption generation
